@@ -65,7 +65,7 @@ class Writer:
       fieldnamemsg = "Field: {}\n".format(fieldname) if fieldname else ""
       contentmsg = "Content: {}\n".format(repr(obj))
       datatypemsg = "Datatype: {}\n".format(datatype)
-      raise err.__class__(
+      raise gfapy.Field._gfapy_error_class(err)(
             fieldnamemsg +
             datatypemsg +
             contentmsg +
